@@ -340,15 +340,20 @@ sexp sexp_bit_count (sexp ctx, sexp self, sexp_sint_t n, sexp x) {
   sexp res;
   sexp_sint_t i;
 #if SEXP_USE_BIGNUMS
-  sexp_uint_t count;
+  sexp_uint_t count, word, borrow;
 #endif
   if (sexp_fixnump(x)) {
     i = sexp_unbox_fixnum(x);
     res = sexp_make_fixnum(bit_count(i<0 ? ~i : i));
 #if SEXP_USE_BIGNUMS
   } else if (sexp_bignump(x)) {
-    for (i=count=0; i<(sexp_sint_t)sexp_bignum_length(x); i++)
-      count += bit_count(sexp_bignum_data(x)[i]);
+    /* a negative number counts the ones of its complement, -x-1 */
+    borrow = (sexp_bignum_sign(x) < 0);
+    for (i=count=0; i<(sexp_sint_t)sexp_bignum_length(x); i++) {
+      word = sexp_bignum_data(x)[i] - borrow;
+      borrow = (borrow && sexp_bignum_data(x)[i] == 0);
+      count += bit_count(word);
+    }
     res = sexp_make_fixnum(count);
 #endif
   } else {
